@@ -81,6 +81,10 @@ TEMPLATES = [
     ("undefined", "qxs := [1]\nqxs[0:  «0»nope_qq] = [1]\n", True),
     ("undefined", "qo := {}\nqo[  «0»nope_qq] = 1\n", True),
     ("undefined", "qq := «1»fn() { return  «0»nope_qq; }()\n", True),
+    ("undefined", "qa := 0\n[qa,   ..«0»nope_qq] = [1, 2]\n", True),
+    ("undefined", "qa := 0\n{qa,   ..«0»nope_qq} = {\"qa\": 1}\n", True),
+    ("undefined", "[  «0»nope_qq, qb] = [1, 2]\n", True),
+    ("undefined", "{\"k\":   «0»nope_qq} = {\"k\": 1}\n", True),
     ("operator", "print(1 «0»+ \"a\")\n", True),
     ("operator", "print(9223372036854775807 «0»+ 1)\n", True),
     ("operator", "qq := 1\nqq «0»+= \"a\"\n", True),
